@@ -52,6 +52,43 @@ def conforms(value, announced):
 
 TYPE_ERRORS = (TypeError, AttributeError)
 
+# Exceptions that are NOT counted, per function: value errors of the ARGUMENT VALUE that the property text does not
+# call type errors (DESIGN.md section 7, "not counted as violations"). Everything else that escapes execution of an
+# accepted query is reported: the casts and operators are meant to be total on conforming data (NULL for what cannot
+# be converted), so e.g. a ValueError out of Decimal(<Amount>) in decimal(object) is a failure.
+TOLERATED = {
+    'parse_date': {'ValueError', 'ParserError', 'OverflowError'},   # text that is not a date in the given format
+    'maxwidth': {'ValueError'},                                    # width < 5
+    'splitcomp': {'IndexError', 'ValueError'},                     # component index out of range / empty separator
+    'grepn': {'IndexError', 'error'},                              # group index out of range / invalid pattern
+    'grep': {'error'}, 'subst': {'error'}, 'findfirst': {'error'}, 'has_account': {'error'},
+    'Match': {'error'}, 'NotMatch': {'error'},                     # invalid regular expression
+    'round': {'InvalidOperation'},                                 # quantize beyond the context precision
+    'date_bin': {'ZeroDivisionError'},                             # zero stride (FIXME in the code)
+    'account_sortkey': {'ValueError'},                             # text that is not an account name
+}
+
+
+def exc_class(fname, e):
+    """'type-error' | None (tolerated, counted) | 'raises:<Exception>' (reported)."""
+    if isinstance(e, TYPE_ERRORS):
+        return 'type-error'
+    if type(e).__name__ in TOLERATED.get(fname, ()):
+        return None
+    return 'raises:' + type(e).__name__
+
+
+def note_exc(res, fname, e, where, inp, tag=None):
+    cls = exc_class(fname, e)
+    k = type(e).__name__
+    if cls is None:
+        res['other_exc'][k] = res['other_exc'].get(k, 0) + 1
+        return
+    f = {'class': cls, 'exc': k, 'where': where, 'input': inp, 'value': str(e)[:200]}
+    if tag is not None:
+        f['tag'] = tag
+    res['fails'].append(f)
+
 # ------------------------------------------------------------------ sample values per datatype
 
 A = amount.Amount
@@ -111,6 +148,40 @@ ACCOUNTS = ['Assets:Bank', 'Assets:Broker', 'Assets:Cash', 'Expenses:Food', 'Exp
 CURRENCIES = ['USD', 'EUR', 'HOOL', 'ACME']
 
 
+# every kind of metadata value the Beancount grammar produces
+META_KINDS = ['str', 'number', 'date', 'bool', 'amount', 'account', 'currency', 'tag', 'null', 'numstr']
+
+
+def meta_value(rng, kind=None):
+    kind = kind or rng.choice(META_KINDS)
+    return {
+        'str': lambda: '"%s"' % rng.choice(['paris', 'rome', 'red', '']),
+        'numstr': lambda: '"%s"' % rng.choice(['8', '12.50', '-3']),
+        'number': lambda: rng.choice(['20', '900', '12.50', '-3', '2 * 3']),
+        'date': lambda: rng.choice(['2020-01-05', '2019-12-31']),
+        'bool': lambda: rng.choice(['TRUE', 'FALSE']),
+        'amount': lambda: rng.choice(['10.00 USD', '250 EUR', '-1.5 HOOL']),
+        'account': lambda: rng.choice(ACCOUNTS),
+        'currency': lambda: rng.choice(CURRENCIES),
+        'tag': lambda: rng.choice(['#trip', '#work']),
+        'null': lambda: '',
+    }[kind]()
+
+
+def meta_lines(rng, indent, p=0.35):
+    """Metadata lines: `budget` and `limit` take a value of ANY kind (the same key holds a number on one
+    directive and an amount, a string, a date ... on another), the other keys have a fixed kind."""
+    out = []
+    for key in ('budget', 'limit'):
+        if rng.random() < p:
+            out.append(f'{indent}{key}: {meta_value(rng)}'.rstrip())
+    for key, kind in (('trip', 'str'), ('when', 'date'), ('flagged', 'bool'), ('acct', 'account'), ('cur', 'currency'),
+                      ('mtag', 'tag'), ('empty', 'null'), ('rank', 'number'), ('color', 'str')):
+        if rng.random() < p * 0.4:
+            out.append(f'{indent}{key}: {meta_value(rng, kind)}'.rstrip())
+    return out
+
+
 def gen_ledger(rng, size=None):
     """A small random ledger text using every directive kind the tables are built from."""
     size = size if size is not None else rng.randint(0, 8)
@@ -124,10 +195,7 @@ def gen_ledger(rng, size=None):
             cur = rng.choice(['', ' USD', ' USD,EUR', ' HOOL'])
             booking = rng.choice(['', '', ' "FIFO"', ' "STRICT"', ' "NONE"']) if cur else ''
             out.append(f'{day} open {acc}{cur}{booking}')
-            if rng.random() < 0.3:
-                out.append(f'  color: "{rng.choice(["red", "blue"])}"')
-            if rng.random() < 0.2:
-                out.append(f'  rank: {rng.randint(1, 9)}')
+            out.extend(meta_lines(rng, '  '))
             opened.append(acc)
     for cur in CURRENCIES:
         if rng.random() < 0.7:
@@ -136,6 +204,7 @@ def gen_ledger(rng, size=None):
                 out.append(f'  name: "{cur} name"')
             if rng.random() < 0.3:
                 out.append(f'  precision: {rng.randint(0, 4)}')
+            out.extend(meta_lines(rng, '  '))
     if not opened:
         opened = ['Assets:Bank']
         out.append(f'{day} open Assets:Bank')
@@ -156,19 +225,18 @@ def gen_ledger(rng, size=None):
             tags = ''.join(' #' + t for t in rng.sample(['trip', 'work', 'x1'], rng.randint(0, 2)))
             links = ''.join(' ^' + t for t in rng.sample(['inv-1', 'l2'], rng.randint(0, 2)))
             out.append(f'{day} {flag} {payee}{narr}{tags}{links}')
-            if rng.random() < 0.3:
-                out.append(f'  trip: "{rng.choice(["paris", "rome"])}"')
+            out.extend(meta_lines(rng, '  ', 0.5))
             if rng.random() < 0.2:
                 out.append(f'  amount-meta: {num()} USD')
-            if rng.random() < 0.2:
-                out.append(f'  when: {day}')
             kind = rng.random()
             if kind < 0.4:
                 n = num()
                 out.append(f'  {acc()}  {n} USD')
                 if rng.random() < 0.3:
                     out.append(f'    note: "posting meta"')
+                out.extend(meta_lines(rng, '    ', 0.5))
                 out.append(f'  {acc()}  {-n} USD')
+                out.extend(meta_lines(rng, '    ', 0.3))
             elif kind < 0.6:
                 n = rng.randint(1, 9)
                 p = num(5, 50)
@@ -193,6 +261,7 @@ def gen_ledger(rng, size=None):
             out.append(f'{day} price {rng.choice(["HOOL", "EUR", "ACME"])} {num(1, 90)} USD')
             if rng.random() < 0.3:
                 out.append('  source: "manual"')
+            out.extend(meta_lines(rng, '  ', 0.2))
         elif k < 0.65:
             tol = rng.choice(['', '', ' ~ 0.05'])
             out.append(f'{day} balance {acc()} {num()}{tol} USD')
@@ -203,8 +272,10 @@ def gen_ledger(rng, size=None):
         elif k < 0.80:
             tl = rng.choice(['', ' #trip', ' ^inv-1', ' #work ^l2'])
             out.append(f'{day} note {acc()} "called {rng.choice(["bank", "broker"])}"{tl}')
+            out.extend(meta_lines(rng, '  ', 0.2))
         elif k < 0.87:
             out.append(f'{day} event "{rng.choice(["location", "employer"])}" "{rng.choice(["Paris", "NYC", ""])}"')
+            out.extend(meta_lines(rng, '  ', 0.2))
         elif k < 0.94:
             tl = rng.choice(['', ' #trip', ' ^inv-1'])
             out.append(f'{day} document {acc()} "/tmp/C04/doc{rng.randint(1, 3)}.pdf"{tl}')
@@ -218,22 +289,45 @@ FIXED_LEDGER = '''option "title" "C04 fixed"
 option "operating_currency" "USD"
 2019-12-01 open Assets:Bank USD,EUR
   color: "red"
+  budget: 900
 2019-12-01 open Assets:Broker HOOL "FIFO"
+  budget: "8"
 2019-12-01 open Assets:Cash
+  budget: 2020-01-05
 2019-12-01 open Expenses:Food
+  budget: 250.00 USD
+  limit: TRUE
 2019-12-01 open Income:Job
 2019-12-01 open Equity:Opening
 2019-12-01 commodity USD
   name: "US dollar"
+  budget: 1.00 USD
 2019-12-01 commodity HOOL
+  budget: 3
 2020-01-02 * "Shop" "Lunch" #trip ^inv-1
   trip: "paris"
+  limit: 20
+  flagged: TRUE
+  acct: Assets:Bank
+  cur: USD
+  mtag: #trip
+  empty:
+  when: 2020-01-05
   Assets:Bank  -12.50 USD
     note: "posting meta"
+    budget: 10.00 USD
   Expenses:Food  12.50 USD
+    budget: 900
+    limit: Assets:Cash
 2020-01-03 * "Buy"
+  limit: 1000.00 USD
+  budget: #work
   Assets:Broker  2 HOOL {100.00 USD, "lot-a"}
+    budget: "8"
+    limit: EUR
   Assets:Bank  -200.00 USD
+    budget: FALSE
+    limit:
 2020-01-04 ! "Fx"
   Assets:Cash  10 EUR @ 1.10 USD
   Assets:Bank
@@ -448,12 +542,8 @@ def run_overload_case(case):
         inp = [tuple(describe_value(v) for v in r) for r in g]
         try:
             desc, out = query_execute.execute_query(q)
-        except TYPE_ERRORS as e:
-            res['fails'].append({'class': 'type-error', 'exc': type(e).__name__, 'where': sql, 'input': inp, 'value': str(e)[:200]})
-            continue
         except Exception as e:  # noqa: BLE001
-            k = type(e).__name__
-            res['other_exc'][k] = res['other_exc'].get(k, 0) + 1
+            note_exc(res, name, e, sql, inp)
             continue
         res['rows'] += len(g)
         if any(v is None for r in g for v in r):
@@ -475,11 +565,8 @@ def run_overload_case(case):
                 res['cells'] += check_result(cur.description, out, res['fails'], csql, None)
             except beanquery.CompilationError:
                 pass
-            except TYPE_ERRORS as e:
-                res['fails'].append({'class': 'type-error', 'exc': type(e).__name__, 'where': csql, 'input': None, 'value': str(e)[:200]})
             except Exception as e:  # noqa: BLE001
-                k = type(e).__name__
-                res['other_exc'][k] = res['other_exc'].get(k, 0) + 1
+                note_exc(res, name, e, csql, None)
     return res
 
 
@@ -517,12 +604,70 @@ def run_in_case(case):
         inp = [tuple(describe_value(v) for v in r)]
         try:
             desc, out = query_execute.execute_query(q)
-        except TYPE_ERRORS as e:
-            res['fails'].append({'class': 'type-error', 'exc': type(e).__name__, 'where': sql, 'input': inp, 'value': str(e)[:200]})
-            continue
         except Exception as e:  # noqa: BLE001
-            k = type(e).__name__
-            res['other_exc'][k] = res['other_exc'].get(k, 0) + 1
+            note_exc(res, case['op'], e, sql, inp)
+            continue
+        res['rows'] += 1
+        res['cells'] += check_result(desc, out, res['fails'], sql, inp)
+    return res
+
+
+# ------------------------------------------------------------------ sweep 1c: an untyped (object) column against typed operands
+# Compiler._binaryop wraps the object operand in decimal()/date()/str()/bool(); those casts must be total on ANY value.
+
+OBJ_VALUES = SAMPLES[object] + [(1, 2), ('a',), position.Position(A(D('2'), 'HOOL'), COST), _inv(position.Position(A(D('5'), 'USD'), None)),
+                                {'x'}, frozenset(), relativedelta(days=1), A(D('10.00'), 'USD'), 'paris', '12.50', '2020-01-05',
+                                D('-3'), False, 0, '', [], {}, COST, 1.5, b'x']
+OBJCAST_TYPES = [int, D, str, date, bool]
+BIN_SYMS = ['Mul', 'Div', 'Mod', 'Add', 'Sub', 'Match', 'NotMatch', 'Equal', 'NotEqual', 'Greater', 'GreaterEq', 'Less', 'LessEq']
+CAST_FUNCS = ['int', 'decimal', 'date', 'str', 'bool', 'repr']
+
+
+def objcast_cases():
+    out = []
+    for ti in range(len(OBJCAST_TYPES)):
+        for op in BIN_SYMS:
+            for side in (0, 1):
+                out.append({'kind': 'op', 'op': op, 'ti': ti, 'side': side})
+    for f in CAST_FUNCS:
+        out.append({'kind': 'fn', 'op': f, 'ti': 0, 'side': 0})
+    for f in ('int', 'decimal'):
+        out.append({'kind': 'aggfn', 'op': f, 'ti': 0, 'side': 0})
+    return out
+
+
+def run_objcast_case(case):
+    t = OBJCAST_TYPES[case['ti']]
+    res = {'cells': 0, 'rows': 0, 'fails': [], 'other_exc': {}, 'status': 'ok'}
+    conn = context_connection()
+    table = impl.make_table('t', [('o', object), ('c', t)], [])
+    conn.tables['t'] = table
+    if case['kind'] == 'op':
+        args = ('o', 'c') if case['side'] == 0 else ('c', 'o')
+        expr = OP_SYNTAX[case['op']].format(*args)
+        res['sig'] = f'objcast:{case["op"]}(' + ','.join('object' if a == 'o' else tshort(t) for a in args) + ')'
+    elif case['kind'] == 'fn':
+        expr = f'{case["op"]}(o)'
+        res['sig'] = f'objcast:{case["op"]}(object)'
+    else:
+        expr = f'sum({case["op"]}(o))'
+        res['sig'] = f'objcast:agg({case["op"]}(object))'
+    sql = f'SELECT {expr} AS r FROM #t'
+    res['sql'] = sql
+    try:
+        q = compiler.compile(conn, parser.parse(sql))
+    except beanquery.CompilationError:
+        res['status'] = 'rejected'
+        return res
+    typed = SAMPLES[t]
+    for k, ov in enumerate(OBJ_VALUES + [None]):
+        row = (ov, typed[k % len(typed)])
+        table.rows = [row]
+        inp = [tuple(describe_value(v) for v in row)]
+        try:
+            desc, out = query_execute.execute_query(q)
+        except Exception as e:  # noqa: BLE001
+            note_exc(res, case['op'], e, sql, inp)
             continue
         res['rows'] += 1
         res['cells'] += check_result(desc, out, res['fails'], sql, inp)
@@ -536,10 +681,12 @@ def run_in_case(case):
 
 from beanquery.parser import ast as bast  # noqa: E402
 
-META_KEYS = ['trip', 'color', 'note', 'filename', 'lineno', 'amount-meta', 'when', 'rank', 'name', 'nokey']
+META_KEYS = ['budget', 'limit', 'trip', 'color', 'note', 'filename', 'lineno', 'amount-meta', 'when', 'rank', 'name', 'flagged',
+             'acct', 'cur', 'mtag', 'empty', 'nokey']
 LITS = {
     str: [("'USD'", 'USD'), ("'EUR'", 'EUR'), ("'HOOL'", 'HOOL'), ("'trip'", 'trip'), ("'Assets'", 'Assets'), ("'Bank'", 'Bank'),
-          ("'month'", 'month'), ("'1 month'", '1 month'), ("'color'", 'color'), ("':'", ':')],
+          ("'month'", 'month'), ("'1 month'", '1 month'), ("'color'", 'color'), ("':'", ':'), ("'budget'", 'budget'),
+          ("'limit'", 'limit')],
     int: [('1', 1), ('2', 2), ('0', 0)],
     D: [('1.5', D('1.5')), ('0.0', D('0.0'))],
     date: [('2020-01-05', date(2020, 1, 5)), ('2019-12-31', date(2019, 12, 31))],
@@ -603,6 +750,49 @@ def ledger_queries(conn, rng, per_overload):
         for text, node, _ in paths:
             qs.append((f'column:{tname_}.{text.split("[")[0]}', f'SELECT {text} AS r FROM #{tname_}', select_ast(node, tname_)))
         qs.append((f'wildcard:{tname_}', f'SELECT * FROM #{tname_}', select_ast(bast.Asterisk(), tname_)))
+        # untyped (object) sources of this table: metadata subscripts and the metadata functions ...
+        objsrc = [(text, node) for text, node, dt in paths if dt is object and '[' in text
+                  and any(f"['{k}']" in text for k in ('budget', 'limit', 'when', 'trip', 'flagged', 'empty', 'nokey'))]
+        cnames = set(table.columns)
+        for key in ('budget', 'limit'):
+            kc = bast.Constant(key)
+            if tname_ == 'postings':
+                for fn in ('meta', 'entry_meta', 'any_meta'):
+                    objsrc.append((f"{fn}('{key}')", bast.Function(fn, [kc])))
+            for acol in ('account',):
+                if acol in cnames and table.columns[acol].dtype is str:
+                    objsrc.append((f"open_meta({acol}, '{key}')", bast.Function('open_meta', [bast.Column(acol), kc])))
+            for ccol in ('currency', 'name'):
+                if ccol in cnames and table.columns[ccol].dtype is str:
+                    objsrc.append((f"commodity_meta({ccol}, '{key}')", bast.Function('commodity_meta', [bast.Column(ccol), kc])))
+        # ... under every numeric operator (implicit decimal/date/str cast of _binaryop), comparison and explicit cast
+        C = bast.Constant
+        forms = [
+            ('{} > 5', lambda n: bast.Greater(n, C(5))), ('{} <= 5.5', lambda n: bast.LessEq(n, C(D('5.5')))),
+            ('{} = 20', lambda n: bast.Equal(n, C(20))), ('{} != 1.0', lambda n: bast.NotEqual(n, C(D('1.0')))),
+            ('{} - 1.5', lambda n: bast.Sub(n, C(D('1.5')))), ('{} * 2', lambda n: bast.Mul(n, C(2))),
+            ('{} / 12', lambda n: bast.Div(n, C(12))), ('{} % 3', lambda n: bast.Mod(n, C(3))),
+            ('2 + {}', lambda n: bast.Add(C(2), n)), ('10.0 / {}', lambda n: bast.Div(C(D('10.0')), n)),
+            ("{} = 'paris'", lambda n: bast.Equal(n, C('paris'))), ("{} ~ 'a'", lambda n: bast.Match(n, C('a'))),
+            ('{} < 2020-01-06', lambda n: bast.Less(n, C(date(2020, 1, 6)))), ('2020-02-01 - {}', lambda n: bast.Sub(C(date(2020, 2, 1)), n)),
+            ('decimal({})', lambda n: bast.Function('decimal', [n])), ('int({})', lambda n: bast.Function('int', [n])),
+            ('date({})', lambda n: bast.Function('date', [n])), ('str({})', lambda n: bast.Function('str', [n])),
+            ('bool({})', lambda n: bast.Function('bool', [n])), ('sum(decimal({}))', lambda n: bast.Function('sum', [bast.Function('decimal', [n])])),
+            ('sum(int({}))', lambda n: bast.Function('sum', [bast.Function('int', [n])])),
+            ('coalesce({}, {})', lambda n: bast.Function('coalesce', [n, n])), ('NOT {}', lambda n: bast.Not(n)),
+        ]
+        if 'number' in cnames:
+            forms.append(('{} - number', lambda n: bast.Sub(n, bast.Column('number'))))
+            forms.append(('number * {}', lambda n: bast.Mul(bast.Column('number'), n)))
+        if 'date' in cnames:
+            forms.append(('date - {}', lambda n: bast.Sub(bast.Column('date'), n)))
+        for otext, onode in objsrc:
+            for ftext, build in forms:
+                text = ftext.format(otext, otext)
+                qs.append((f'objcast:{ftext}', f'SELECT {text} AS r FROM #{tname_}', select_ast(build(onode), tname_)))
+            qs.append((f'objcast:WHERE {{}} > 5', f'SELECT count(*) AS r FROM #{tname_} WHERE {otext} > 5',
+                       bast.Select([bast.Target(bast.Function('count', [bast.Asterisk()]), 'r')], bast.Table(tname_),
+                                   bast.Greater(onode, C(5)), None, None, None, None, None)))
         # every function / operator overload fed with columns / attribute paths of this table where the types allow it
         typed = [(text, node, dt) for text, node, dt in paths if isinstance(dt, type)]
         for kind, name, cls, intypes in overloads():
@@ -683,12 +873,9 @@ def run_ledger_case(case):
         except beanquery.CompilationError:
             res['rejected'] += 1
             continue
-        except TYPE_ERRORS as e:
-            res['fails'].append({'tag': tag, 'class': 'type-error', 'exc': type(e).__name__, 'where': sql, 'value': str(e)[:200]})
-            continue
         except Exception as e:  # noqa: BLE001
-            k = type(e).__name__
-            res['other_exc'][k] = res['other_exc'].get(k, 0) + 1
+            fname = tag.split(':', 1)[1].split('(')[0] if tag.startswith('call:') else ''
+            note_exc(res, fname, e, sql, None, tag=tag)
             continue
         res['rows'] += len(rows)
         fails = []
